@@ -58,6 +58,16 @@ func Catalogue() map[string]Script {
 			start(2), wok(2), eof, res(4, 1))
 		mk("c09:closed-refuses", 2, 0, res(0, 1), cls, res(1, 1), start(0), res(2, 1))
 		mk("c09:reserved-then-closed", 3, 0, res(0, 1), res(1, 1), start(0), wok(0), eof, start(1), res(2, 1))
+		// 101 calls hold the ids 0..100; the id counter is forced back to 0: the next call finds its 100 candidates taken
+		{
+			var as []Action
+			for c := 0; c <= 100; c++ {
+				as = append(as, res(c, uint16(c)), start(c), wok(c))
+			}
+			as = append(as, setq(0), res(101, 7), start(101), res(102, 7), res(103, 7), setq(200), start(102), wok(102), reply(102, 1102),
+				reply(5, 1005), res(104, 1), res(105, 1))
+			mk("c09:id-exhaustion", 104, 0, as...)
+		}
 		// C07 safety core
 		mk("c07:eof-wakes-all", 4, 0, res(0, 1), res(1, 2), res(2, 3), start(0), start(1), start(2), wok(0), wok(1), eof, wok(2))
 		mk("c07:write-error-wakes-all", 4, 0, res(0, 1), res(1, 2), start(0), start(1), wok(0), werr(1))
